@@ -6,8 +6,8 @@ from checks.common import swarm
 
 ID = 'C08'
 LEVEL = 'exploration'
-NEEDS = ('threads',)  # + 'proc'
-PROC_READY = False
+NEEDS = ('threads', 'proc')
+PROC_READY = True
 QUICK = dict(runs=6000, wall=80)
 THOROUGH = dict(runs=300000, wall=1200)
 RULE = ('scenario = unbounded counter source -> buffer(n) | fifo_stream(capacity) | Stream.parmap(concurrency, thread|process); source / '
